@@ -3,6 +3,7 @@ mod c01;
 mod c02;
 mod c03;
 mod c05;
+mod c06;
 mod c09;
 mod c10;
 mod common;
@@ -25,6 +26,7 @@ fn main() -> anyhow::Result<()> {
         "C01" => c01::run(seed, n, &out, thorough, "C01", "Check.C01"),
         "C02" => c02::run(seed, n, &out, thorough),
         "C07" | "C13" | "C15" | "C16" | "C17" | "C18" => storeprops::run(prop, seed, n, &out, thorough),
+        "C06" => c06::run(seed, n, &out, thorough),
         "C09" => c09::run(seed, n, &out, thorough),
         "C10" => c10::run(seed, n, &out, thorough),
         "C12" | "C14" => actorops::run(prop, seed, n, &out, thorough),
